@@ -182,20 +182,20 @@ func nilRules(c *Ctx) {
 }
 
 func nilProp(c *Ctx, fi *core.FuncInfo) string {
-	file := c.P.Fset.Position(fi.Decl.Pos()).Filename
+	// attribution by role (call-graph position and receiver type), not by source file
 	switch {
-	case strings.HasSuffix(file, "/mixin.go"):
-		return "C17"
-	case strings.HasSuffix(file, "/fixer.go"):
+	case c.below(fi, "FixEmptyResponseDescriptions"):
 		return "C19"
-	case strings.HasSuffix(file, "/analyzer.go"):
+	case c.onSpec(fi):
 		if fi.Obj.Exported() || strings.Contains(fi.Obj.Name(), "param") || strings.Contains(fi.Obj.Name(), "Param") {
-			if nf := c.root("New"); nf != nil && c.P.Reachable(nf)[fi] {
+			if c.below(fi, "New") {
 				return "C09"
 			}
 			return "C15"
 		}
 		return "C09"
+	case c.below(fi, "Mixin"):
+		return "C17"
 	}
 	return "C09"
 }
